@@ -49,11 +49,13 @@ def check_scopes(idx: Index, rep: Report) -> None:
     n_fn = 0
     for rel in ("xdsl/interpreter.py", "xdsl/interpreters/pdl.py"):
         mi = idx.module(rel)
-        for f in raw_funcs(mi):
-            pushes = [c for c in calls_in(f.node) if call_attr(c) == "push_scope"]
-            if not pushes or f.name in ("push_scope", "pop_scope"):
-                continue
-            n_fn += 1
+        funcs = list(raw_funcs(mi))
+
+        def evaluate(f, push_names):
+            """[(call, ok, message-if-ok, where, n_pops, n_restores)] for every scope push (or call of a pushing helper) of f"""
+            pushes = [c for c in calls_in(f.node) if call_attr(c) in push_names]
+            if not pushes:
+                return []
             cfg = CFG(f.node)
             pm = parent_map(f.node)
 
@@ -68,8 +70,8 @@ def check_scopes(idx: Index, rep: Report) -> None:
             recv = unparse(pushes[0].func.value)  # type: ignore[attr-defined]
             snaps = [s_ for s_ in walk_local(f.node) if isinstance(s_, ast.Assign) and len(s_.targets) == 1 and isinstance(s_.targets[0], ast.Name) and unparse(s_.value) == f"{recv}._ctx"]
             restores = [s_ for s_ in walk_local(f.node) if isinstance(s_, ast.Assign) and unparse(s_.targets[0]) == f"{recv}._ctx" and isinstance(s_.value, ast.Name) and any(unparse(sn.targets[0]) == s_.value.id for sn in snaps)]
+            out = []
             for c in pushes:
-                inst = f"{f.fq}:{c.lineno - f.node.lineno}"
                 n_push = cfg.node_of(c)
                 snap_ok = False
                 for rs in restores:
@@ -87,13 +89,30 @@ def check_scopes(idx: Index, rep: Report) -> None:
                     pn = {cfg.node_of(p_) for p_ in same}
                     target = cfg.node_of(lp) if lp is not None else cfg.exit
                     pair_ok = cfg.path_avoiding(n_push, target, lambda x: x.id in pn, follow_exc=False) is None
-                if snap_ok:
-                    r.ok(inst, f"{f.module.relpath}:{c.lineno} environment restored from a snapshot taken before the first push")
-                elif pair_ok:
-                    r.ok(inst, f"{f.module.relpath}:{c.lineno} push paired with pop at the same loop depth")
+                msg = "environment restored from a snapshot taken before the first push" if snap_ok else "push paired with pop at the same loop depth" if pair_ok else None
+                out.append((c, msg, "inside a loop" if lp is not None else "here", len(pops), len(restores)))
+            return out
+
+        first = {f.fq: (f, evaluate(f, {"push_scope"})) for f in funcs if f.name not in ("push_scope", "pop_scope")}
+        # a private helper that leaves its scope to the caller: the obligation moves to every call site
+        leaky = {f.name for f, res in first.values() if f.name.startswith("_") and any(m_ is None for _, m_, *_ in res)}
+        leaky = {nm for nm in leaky if any(call_attr(c) == nm and isinstance(c.func, ast.Attribute) and unparse(c.func.value) == "self" for g in funcs for c in calls_in(g.node))}
+        for f, res in first.values():
+            if f.name in leaky:
+                n_fn += 1
+                for c, m_, *_ in res:
+                    r.ok(f"{f.fq}:{c.lineno - f.node.lineno}", f"{f.module.relpath}:{c.lineno} helper leaves the scope to its callers (checked there)")
+                continue
+            res2 = evaluate(f, {"push_scope"} | leaky) if leaky else res
+            if not res2:
+                continue
+            n_fn += 1
+            for c, m_, where, npops, nrest in res2:
+                inst = f"{f.fq}:{c.lineno - f.node.lineno}"
+                if m_ is not None:
+                    r.ok(inst, f"{f.module.relpath}:{c.lineno} {m_}")
                 else:
-                    where = "inside a loop" if lp is not None else "here"
-                    r.fail(inst, Finding("C15.R8", f.fq, "scope-leak", f"`{unparse(c)}` ({where}) is neither undone by restoring a snapshot of the environment taken before it nor paired with a pop_scope at the same loop depth ({len(pops)} pop_scope call(s), {len(restores)} snapshot restore(s) in the function): a region that executes k blocks leaves k-1 scopes behind, which shadow the caller's values after a recursive call", f"{f.module.relpath}:{c.lineno}"))
+                    r.fail(inst, Finding("C15.R8", f.fq, "scope-leak", f"`{unparse(c)}` ({where}) is neither undone by restoring a snapshot of the environment taken before it nor paired with a pop_scope at the same loop depth ({npops} pop_scope call(s), {nrest} snapshot restore(s) in the function): a region that executes k blocks leaves k-1 scopes behind, which shadow the caller's values after a recursive call", f"{f.module.relpath}:{c.lineno}"))
     if n_fn == 0:
         raise AnalysisError("no function pushing an interpreter scope found")
 
